@@ -567,6 +567,89 @@ def ack_deadline_script(rnd, sid):
     return sc
 
 
+def manual_ack_script(rnd, sid):
+    """an application that replaces the built-in KeepAlive handler acknowledges by hand: SendNoWait(NewHdrOnlyMsg(MsgKeepAliveAck)).
+    Such a message is taken from the send queue like any other and gets its id from the client's counter — DECISION (notes/C05.md):
+    for "the message ids given to requests on one connection are pairwise distinct" it is a request: whatever the client numbers
+    itself must not depend on reader-chosen values. Requests (ids 0, 1, 2, ...) and keep-alives whose ids coincide with request
+    ids already given / about to be given, each followed by a hand-written acknowledgement; compared with the model (ids from
+    the counter) and judged by pred_c05 (every frame whole, ids pairwise distinct — acknowledgements included)."""
+    version = rnd.choice([1, 1, 2])
+    hs = [dict(typ=cc.T_KA, mode=rnd.choice(["none", "all"]), k=0)] if rnd.random() < 0.6 else None
+    b = cc.SB(sid, version=version, handlers=hs, no_ack=True)
+    b.connect(cur=rnd.choice([1, 2]), mx=2)
+    tag = rnd.randrange(1, 1 << 20) * 64
+    types = list(REQ_TYPES)
+    rnd.shuffle(types)
+    c = 0
+    nreq = [2 if version == 2 else 0]            # ids the counter has given so far (negotiation included; an upper estimate is enough)
+    outstanding = []
+
+    def request():
+        nonlocal c
+        c += 1
+        b.send(c, types[c % len(types)], 1 + rnd.randrange(0, 40), tag + c)
+        outstanding.append(c)
+        nreq[0] += 1
+    for _ in range(rnd.randrange(1, 4)):
+        request()
+    for _ in range(rnd.randrange(2, 5)):
+        # the reader numbers its own messages in the range the client's counter uses: an id already given, the next one, 1, 0
+        kid = rnd.choice([rnd.randrange(0, nreq[0] + 1), nreq[0], nreq[0] + 1, 1, 0, 4294967295])
+        b.keepalive(kid)
+        c += 1
+        b.send(c, cc.T_ACK, 0, 0, api="SendNoWait", ver=rnd.choice([0, 1]))      # msgid 0: "let the client number it"
+        nreq[0] += 1
+        if rnd.random() < 0.6:
+            request()
+        if outstanding and rnd.random() < 0.5:
+            a = outstanding.pop(rnd.randrange(len(outstanding)))
+            b.reply_to(a, resp_type(b.reqs[a]["typ"]), rnd.choice([0, 6]), tag + 500 + a)
+            b.wait(a)
+    for a in outstanding:
+        b.reply_to(a, resp_type(b.reqs[a]["typ"]), rnd.choice([0, 6]), tag + 700 + a)
+        b.wait(a)
+    b.op("drain")
+    b.op("state")
+    sc = b.script()
+    sc["family"] = "manual-ack"
+    return sc
+
+
+def close_midframe_script(rnd, sid):
+    """Close() — or the peer-independent end of the client (Shutdown's fallback Close) — lands while a request is between its
+    header and the end of its payload; the peer is healthy and keeps reading: the frame must still arrive complete (the write
+    loop looks at `done` between messages only) — or the connection has to die; a header followed by fewer bytes than it
+    announces on a connection nobody broke is `frame-abandoned`. Go only (partial reads), raw bytes."""
+    b = cc.SB(sid, version=1)
+    if rnd.random() < 0.3:
+        b.connect_step["client_timeout_ms"] = 5000
+    b.connect()
+    tag = rnd.randrange(1, 1 << 20) * 64
+    n = rnd.choice([200, 5000, 40000, 65537, 131073, 300000])
+    total = n + 10
+    k = rnd.choice([x for x in (10, 11, 100, 4096, 32768, 32778, 65536, total - 1) if x < total])
+    if rnd.random() < 0.4:
+        b.send(1, rnd.choice(REQ_TYPES), rnd.choice([0, 9]), tag + 1, expect=False)
+        b.op("drain_raw")
+    b.send(2, rnd.choice(REQ_TYPES), n, tag + 2, expect=False)
+    b.op("peer_read", n=k)
+    if rnd.random() < 0.4:
+        b.keepalive(rnd.randrange(1 << 32))             # an acknowledgement queues up behind the frame
+    how = rnd.choice(["close", "close", "shutdown-then-close"])
+    if how == "shutdown-then-close":
+        b.op("shutdown", caller=9)
+        b.cancel(9)
+    b.op("close")
+    b.op("wait_caller", caller=2)
+    b.op("drain_raw")
+    b.op("state")
+    sc = b.script()
+    sc["family"] = "close-midframe"
+    sc["step_ms"] = 2000
+    return sc
+
+
 def close_payload_script():
     """SendMessage(MsgCloseConnection, 5 bytes): predicate only (see notes/C05.md)"""
     b = cc.SB("c05-close-payload", version=1)
@@ -602,7 +685,7 @@ def run(tier, seed, replay=None):
         rp_data = json.load(open(replay))
         scripts = [rp_data["script"]] if "script" in rp_data else []
         if scripts and scripts[0].get("family") in ("close-payload", "gated", "wtimeout", "wdeadline", "cancel-held",
-                                                    "cancel-midframe", "types", "neg-refused", "ack-deadline"):
+                                                    "cancel-midframe", "types", "neg-refused", "ack-deadline", "close-midframe"):
             pred_only, scripts = scripts, []
         elif scripts and scripts[0].get("family") == "walk":
             walk_scripts, scripts = scripts, []
@@ -613,6 +696,7 @@ def run(tier, seed, replay=None):
         ra = random.Random(seed + 17)
         scripts += [after_close_script(ra, "c05-afterclose-%d" % i) for i in range(240 if thorough else 40)]
         scripts += [kapayload_script(ra, "c05-kapayload-%d" % i) for i in range(120 if thorough else 20)]
+        scripts += [manual_ack_script(ra, "c05-manualack-%d" % i) for i in range(200 if thorough else 30)]
         rg = random.Random(seed + 11)
         pred_only = ([close_payload_script()] + [gated_script(rg, "c05-gated-%d" % i) for i in range(120 if thorough else 24)]
                      + [wtimeout_script(rg, "c05-wtimeout-%d" % i) for i in range(120 if thorough else 24)]
@@ -622,8 +706,9 @@ def run(tier, seed, replay=None):
                      + [cancel_midframe_script(rg, "c05-midframe-big-%d" % i, n=300000) for i in range(4 if thorough else 1)]
                      + types_scripts(rg, thorough)
                      + neg_refused_scripts(rg, thorough)
-                     + [ack_deadline_script(rg, "c05-ackdeadline-%d" % i) for i in range(4 if thorough else 2)])
-    scripts = cc.staged(exe, scripts, lambda s_, g_: bool(cc.pred_c05(cc.go_view(s_, g_))))
+                     + [ack_deadline_script(rg, "c05-ackdeadline-%d" % i) for i in range(4 if thorough else 2)]
+                     + [close_midframe_script(rg, "c05-closemidframe-%d" % i) for i in range(120 if thorough else 24)])
+    scripts = cc.staged(exe, scripts, lambda s_, g_: bool(cc.pred_c05(cc.go_view(s_, g_), s_)))
     go, logs = cc.run_go(exe, scripts, shards=8)
     flag, diffs, counts = cc.pick_variant(scripts, go) if scripts else ((False, False), [], {})
     if diffs is None:
@@ -632,7 +717,7 @@ def run(tier, seed, replay=None):
 
     def go_fails(sc):
         g, _ = cc.run_go(exe, [sc], shards=1)
-        return bool(g and g[0] and cc.pred_c05(cc.go_view(sc, g[0])))
+        return bool(g and g[0] and cc.pred_c05(cc.go_view(sc, g[0]), sc))
 
     evals, nontriv, dist, samples, reported = 0, set(), {}, [], set()
     nframes = 0
@@ -651,7 +736,7 @@ def run(tier, seed, replay=None):
             nontriv.add((s["id"], len(view["frames"]), len(view["reqs"])))
         if len(samples) < 3 and fam == "interleave":
             samples.append(dict(script=s["id"], frames=[(f.get("typ"), f.get("id"), f.get("lenfield")) for f in view["frames"]][:12]))
-        bad = cc.pred_c05(view)
+        bad = cc.pred_c05(view, s)
         for sig, text in bad:
             if sig in reported:
                 continue
@@ -677,9 +762,10 @@ def run(tier, seed, replay=None):
                 cc.crash_violation(res, PID, s, g)
             continue
         view = cc.go_view(s, g)
-        if s["family"] in ("wtimeout", "wdeadline", "cancel-midframe", "ack-deadline"):
-            # judged on the raw bytes; a trailing unfinished frame is what a failed Write leaves behind
-            found = list(cc.judge_raw(s, g, view))
+        if s["family"] in ("wtimeout", "wdeadline", "cancel-midframe", "ack-deadline", "close-midframe"):
+            # judged on the raw bytes; a trailing unfinished frame is what a failed Write leaves behind — where no Write was made
+            # to fail and the peer reads on (cancellation / Close in the middle of a frame) the started frame has to be finished
+            found = list(cc.judge_raw(s, g, view, must_complete=s["family"] in ("cancel-midframe", "close-midframe")))
             nontriv.add((s["id"], (g.get("final") or {}).get("raw_len", 0)))
             if s["family"] == "cancel-midframe" and (g.get("final") or {}).get("raw_hex") is None:
                 found.append(("raw-missing", "script %s produced no raw bytes to judge" % s["id"]))
@@ -694,7 +780,7 @@ def run(tier, seed, replay=None):
                     found.append(("type-not-carried", "%s accepted a message of type %d (does not fit the 10-bit type field / reserved) "
                                   "and reported success" % (s.get("api"), r_["typ"])))
         else:
-            found = list(cc.pred_c05(view))
+            found = list(cc.pred_c05(view, s))
         if s["family"] == "gated":
             n_gated += 1
             nka = sum(1 for st in s["steps"] if st["op"] == "keepalive")
